@@ -20,6 +20,7 @@ concrete witnesses (`counterexample_*`).
 import PoetryVerif.Proofs.MarkerEval
 import PoetryVerif.Proofs.MarkerLeaf
 import PoetryVerif.Proofs.MarkerLeafVersion
+import PoetryVerif.Proofs.MarkerLeafVersionText
 import PoetryVerif.Proofs.VersionParse
 
 set_option linter.unusedSimpArgs false
@@ -113,6 +114,9 @@ theorem leaf_agree_extra_ne (E : Env) (v : String) (ex : List String) (hv : Plai
 example : PlainTok "nt" ∧ exEnv.extras = some ["A"] ∧ (["A"].map canonName).contains (canonName "a") = true :=
   ⟨plainTok_nt, rfl, by decide⟩
 
+/-- environment of the version examples -/
+def cxEnvV : Env := ⟨[("python_full_version", "3.10.1"), ("python_version", "3.10")], some []⟩
+
 /-! ### version variables, token level -/
 
 theorem parseFinal_some {s : String} {V : Version} (h : parseFinal s = some V) :
@@ -145,6 +149,43 @@ example : (Spec.SOp.ge, ">=") ∈ orderedOps ∧
     parseFinal "3.10.1" = some ⟨0, [3, 10, 1], none, none, none, none, "3.10.1"⟩ :=
   ⟨by decide, by decide +kernel, by decide +kernel⟩
 
+/-- **version variables, text level**: `python_version op "X.Y…"` for all numbers and any number of components,
+`op ∈ ==,!=,<,<=,>,>=`, environment value the text `"X'.Y'…"`: the leaf `SingleMarker.__init__` builds from the
+TEXT validates to the reference's PEP 440 comparison (string → number → `clauseVC` round trip proved in
+Proofs/MarkerLeafVersionText.lean through `Nat.toDigits`). -/
+theorem leaf_agree_python_version (E : Env) (sop : Spec.SOp) (ops : String) (hop : (sop, ops) ∈ orderedOps)
+    (x : Nat) (r : List Nat) (x' : Nat) (r' : List Nat)
+    (hev : E.get? "python_version" = some (Version.relText (x' :: r'))) :
+    ∃ b, itemV E "python_version" ops (Version.relText (x :: r)) false = .ok b ∧
+      evalItem "python_version" ops (Version.relText (x :: r)) false E = some b := by
+  obtain ⟨b, h1, h2, _⟩ := agree_pv E sop ops hop x r x' r' hev
+  exact ⟨b, h1, h2⟩
+
+example : (Spec.SOp.ge, ">=") ∈ orderedOps ∧
+    cxEnvV.get? "python_version" = some (Version.relText [3, 10]) := ⟨by decide, by decide +kernel⟩
+
+/-- **`python_full_version op "X.Y"`**: value and constraint are padded to `X.Y.0`, which the ordered
+comparisons do not see -/
+theorem leaf_agree_python_full_version_two (E : Env) (sop : Spec.SOp) (ops : String)
+    (hop : (sop, ops) ∈ orderedOps) (x y : Nat) (x' : Nat) (r' : List Nat)
+    (hev : E.get? "python_full_version" = some (Version.relText (x' :: r'))) :
+    ∃ b, itemV E "python_full_version" ops (Version.relText [x, y]) false = .ok b ∧
+      evalItem "python_full_version" ops (Version.relText [x, y]) false E = some b := by
+  obtain ⟨b, h1, h2, _⟩ := agree_pfv2 E sop ops hop x y x' r' hev
+  exact ⟨b, h1, h2⟩
+
+/-- **`python_full_version op "X.Y.Z…"`** -/
+theorem leaf_agree_python_full_version_three (E : Env) (sop : Spec.SOp) (ops : String)
+    (hop : (sop, ops) ∈ orderedOps) (x : Nat) (r : List Nat) (hr : 2 ≤ r.length) (x' : Nat) (r' : List Nat)
+    (hev : E.get? "python_full_version" = some (Version.relText (x' :: r'))) :
+    ∃ b, itemV E "python_full_version" ops (Version.relText (x :: r)) false = .ok b ∧
+      evalItem "python_full_version" ops (Version.relText (x :: r)) false E = some b := by
+  obtain ⟨b, h1, h2, _⟩ := agree_pfv3 E sop ops hop x r hr x' r' hev
+  exact ⟨b, h1, h2⟩
+
+example : (Spec.SOp.lt, "<") ∈ orderedOps ∧ 2 ≤ [8, 1].length ∧
+    cxEnvV.get? "python_full_version" = some (Version.relText [3, 10, 1]) := ⟨by decide, by decide, by decide +kernel⟩
+
 /-! ### the domain -/
 
 /-- the comparison operators of version variables -/
@@ -168,9 +209,21 @@ inductive ProvedLeaf (E : Env) : String → String → String → Bool → Prop
   | extraEq (v : String) (ex : List String) : PlainTok v → v.toList.head? ≠ some '=' → E.extras = some ex →
       ProvedLeaf E "extra" "==" v false
   | extraNe (v : String) (ex : List String) : PlainTok v → E.extras = some ex → ProvedLeaf E "extra" "!=" v false
+  /-- `python_version op "X.Y…"`, `op ∈ ==,!=,<,<=,>,>=`, environment value `"X'.Y'…"` -/
+  | pv (sop : Spec.SOp) (ops : String) (x : Nat) (r : List Nat) (x' : Nat) (r' : List Nat) :
+      (sop, ops) ∈ orderedOps → E.get? "python_version" = some (relLit (x' :: r')) →
+      ProvedLeaf E "python_version" ops (relLit (x :: r)) false
+  /-- `python_full_version op "X.Y"` (padded to `X.Y.0` by `SingleMarker.__init__`) -/
+  | pfv2 (sop : Spec.SOp) (ops : String) (x y : Nat) (x' : Nat) (r' : List Nat) :
+      (sop, ops) ∈ orderedOps → E.get? "python_full_version" = some (relLit (x' :: r')) →
+      ProvedLeaf E "python_full_version" ops (relLit [x, y]) false
+  /-- `python_full_version op "X.Y.Z…"` -/
+  | pfv3 (sop : Spec.SOp) (ops : String) (x : Nat) (r : List Nat) (x' : Nat) (r' : List Nat) :
+      (sop, ops) ∈ orderedOps → 2 ≤ r.length → E.get? "python_full_version" = some (relLit (x' :: r')) →
+      ProvedLeaf E "python_full_version" ops (relLit (x :: r)) false
 
 /-- every leaf shape of the property's domain (variable kind × operator × literal shape), on an environment
-that defines the variable with, for version variables, a final release -/
+that defines the variable with, for version variables, the text `X'.Y'…` of a final release -/
 inductive DomainLeaf (E : Env) : String → String → String → Bool → Prop
   | proved {n op v sw} : ProvedLeaf E n op v sw → DomainLeaf E n op v sw
   /-- `name in "a b,c"` / `not in`: membership by token -/
@@ -180,28 +233,24 @@ inductive DomainLeaf (E : Env) : String → String → String → Bool → Prop
   /-- `"lit" in name` / `"lit" not in name`: substring -/
   | reversed (n op v ev : String) : n ∈ stringVarNames → op ∈ ["in", "not in"] → PlainTok v →
       E.get? (canonVar n) = some ev → DomainLeaf E n op v true
-  /-- `python_version op "X.Y"` -/
-  | pv (op : String) (X Y : Nat) (ev : String) (cand : Version) : op ∈ verOps →
-      E.get? "python_version" = some ev → parseFinal ev = some cand →
-      DomainLeaf E "python_version" op (relLit [X, Y]) false
-  /-- `python_full_version op "X.Y"` (not `~=`) -/
-  | pfv2 (op : String) (X Y : Nat) (ev : String) (cand : Version) : op ∈ verOps → op ≠ "~=" →
-      E.get? "python_full_version" = some ev → parseFinal ev = some cand →
-      DomainLeaf E "python_full_version" op (relLit [X, Y]) false
-  /-- `python_full_version op "X.Y.Z"` -/
-  | pfv3 (op : String) (X Y Z : Nat) (ev : String) (cand : Version) : op ∈ verOps →
-      E.get? "python_full_version" = some ev → parseFinal ev = some cand →
-      DomainLeaf E "python_full_version" op (relLit [X, Y, Z]) false
+  /-- `python_version ~= "X.Y…"` (two or more components) -/
+  | pvCompat (x : Nat) (r : List Nat) (x' : Nat) (r' : List Nat) : 1 ≤ r.length →
+      E.get? "python_version" = some (relLit (x' :: r')) →
+      DomainLeaf E "python_version" "~=" (relLit (x :: r)) false
+  /-- `python_full_version ~= "X.Y.Z…"` (three or more components) -/
+  | pfvCompat (x : Nat) (r : List Nat) (x' : Nat) (r' : List Nat) : 2 ≤ r.length →
+      E.get? "python_full_version" = some (relLit (x' :: r')) →
+      DomainLeaf E "python_full_version" "~=" (relLit (x :: r)) false
   /-- `python_version in "X.Y …"` -/
-  | pvList (op : String) (x0 : Nat × Nat) (rest : List (String × (Nat × Nat))) (ev : String) (cand : Version) :
+  | pvList (op : String) (x0 : Nat × Nat) (rest : List (String × (Nat × Nat))) (x' : Nat) (r' : List Nat) :
       op ∈ ["in", "not in"] → (∀ p ∈ rest, SepRun p.1) →
-      E.get? "python_version" = some ev → parseFinal ev = some cand →
+      E.get? "python_version" = some (relLit (x' :: r')) →
       DomainLeaf E "python_version" op
         (listLit (relLit [x0.1, x0.2]) (rest.map fun p => (p.1, relLit [p.2.1, p.2.2]))) false
   /-- `python_full_version in "X.Y.Z …"` -/
-  | pfvList (op : String) (x0 : Nat × Nat × Nat) (rest : List (String × (Nat × Nat × Nat))) (ev : String)
-      (cand : Version) : op ∈ ["in", "not in"] → (∀ p ∈ rest, SepRun p.1) →
-      E.get? "python_full_version" = some ev → parseFinal ev = some cand →
+  | pfvList (op : String) (x0 : Nat × Nat × Nat) (rest : List (String × (Nat × Nat × Nat))) (x' : Nat)
+      (r' : List Nat) : op ∈ ["in", "not in"] → (∀ p ∈ rest, SepRun p.1) →
+      E.get? "python_full_version" = some (relLit (x' :: r')) →
       DomainLeaf E "python_full_version" op
         (listLit (relLit [x0.1, x0.2.1, x0.2.2]) (rest.map fun p => (p.1, relLit [p.2.1, p.2.2.1, p.2.2.2]))) false
 
@@ -215,11 +264,14 @@ def leaf_agree_full_statement : Prop :=
 /-- the proved part: extra hypothesis = the leaf is one of the `ProvedLeaf` shapes -/
 theorem leaf_agree_partial (E : Env) (n op v : String) (sw : Bool) (h : ProvedLeaf E n op v sw) :
     ∃ b, itemV E n op v sw = .ok b ∧ evalItem n op v sw E = some b ∧ itemCoherent n op v sw = true := by
-  cases h with
-  | strEq n v ev hn hv h0 hev => exact ⟨_, agree_string_eq E n v ev hn hv h0 hev⟩
-  | strNe n v ev hn hv hev => exact ⟨_, agree_string_ne E n v ev hn hv hev⟩
-  | extraEq v ex hv h0 hex => exact ⟨_, agree_extra_eq E v ex hv h0 hex⟩
-  | extraNe v ex hv hex => exact ⟨_, agree_extra_ne E v ex hv hex⟩
+  match h with
+  | .strEq n v ev hn hv h0 hev => exact ⟨_, agree_string_eq E n v ev hn hv h0 hev⟩
+  | .strNe n v ev hn hv hev => exact ⟨_, agree_string_ne E n v ev hn hv hev⟩
+  | .extraEq v ex hv h0 hex => exact ⟨_, agree_extra_eq E v ex hv h0 hex⟩
+  | .extraNe v ex hv hex => exact ⟨_, agree_extra_ne E v ex hv hex⟩
+  | .pv sop ops x r x' r' hop hev => exact agree_pv E sop ops hop x r x' r' hev
+  | .pfv2 sop ops x y x' r' hop hev => exact agree_pfv2 E sop ops hop x y x' r' hev
+  | .pfv3 sop ops x r x' r' hop hr hev => exact agree_pfv3 E sop ops hop x r hr x' r' hev
 
 example : ProvedLeaf exEnv "os.name" "!=" "nt" false :=
   .strNe "os.name" "nt" "nt" (by decide) plainTok_nt (by decide)
